@@ -14,6 +14,7 @@ def run(ck):
     q = ck.tier == "quick"
     tids = gen.Tids()
     progs = alias.programs(ck.seed, 100 if q else 1500, tids=tids)
+    progs += alias.binary_programs(ck.seed, 60 if q else 1200, tids=tids)
     progs += walks.walk_programs(ck.seed, 200 if q else 4000, depth=8, tids=tids, salt="walk14")
     ck.cov["rule"] = ("every operation with an in-place flag run out of place and in place on a copy (results must be equal), "
                       "each result then mutated in place (operands must not change); plus adaptive walks with 20% in-place calls; "
